@@ -3,6 +3,7 @@ package main
 import (
 	"errors"
 	"fmt"
+	"io"
 	"os"
 	"path/filepath"
 	"runtime"
@@ -44,7 +45,9 @@ func errClass(err error) string {
 		return "operation"
 	case errors.Is(err, sim.ErrSimIO), errors.Is(err, syscall.ETIMEDOUT):
 		return "io"
-	case errors.Is(err, sim.ErrSimWrite):
+	case errors.Is(err, sim.ErrSimWrite), errors.Is(err, io.EOF), errors.Is(err, syscall.EPIPE):
+		// (a bare end-of-stream or broken pipe reaches a caller from a failing WRITE only: a read that
+		// ends the stream stops the read loop and surfaces as a connection error)
 		return "write"
 	default:
 		return "other"
